@@ -19,29 +19,29 @@ type Limits struct {
 
 // Report aggregates an exploration of one harness.
 type Report struct {
-	Harness    string
-	Paths      int
-	ByKind     map[string]int
-	Violations []*Violation
-	Inconcl    map[string]int
-	Reached    map[string]int
-	Steps      int64
-	Branches   int64
-	Funcs      map[string]int
-	Samples    []string
-	Truncated  bool // work left when limits hit
-	Pending    int
-	WallS      float64
-	Solver     SolverStats
+	Harness         string
+	Paths           int
+	ByKind          map[string]int
+	Violations      []*Violation
+	Inconcl         map[string]int
+	Reached         map[string]int
+	Steps           int64
+	Branches        int64
+	Funcs           map[string]int
+	Samples         []string
+	Truncated       bool // work left when limits hit
+	Pending         int
+	WallS           float64
+	Solver          SolverStats
 	UnsupportedMsgs map[string]int
 	UnwindMsgs      map[string]int
-	Notes      map[string]int
-	Witnesses  []*Violation
+	Notes           map[string]int
+	Witnesses       []*Violation
 }
 
 type SolverStats struct {
-	Sat, Unsat, Unknown, Errors int
-	SolveS                      float64
+	Sat, Unsat, Unknown, Errors     int
+	SolveS                          float64
 	PortfolioRuns, PortfolioDecided int
 }
 
